@@ -236,14 +236,32 @@ IMP_INH = {"main.Shape": ["lib.Figure", "main.Sq"], "lib.Figure": ["lib.Shape", 
 IMP_INPUTS = {"dot 1": "lib.Dot", "line 2": "lib.Line", "tri 3": "lib.Tri", "sq 4": "main.Sq"}
 
 
+# an abstract rule named like a rule of the imported grammar and standing for it through an alias of that grammar
+ALIAS_FILES = {"main": "import lib\nModel: s=Sum;\nSum: Expression;\n", "lib": "Expression: Sum | Neg;\nSum: 'sum' name=ID;\nNeg: 'neg' name=ID;\n"}
+ALIAS_INH = {"main.Sum": ["lib.Expression"], "lib.Expression": ["lib.Sum", "lib.Neg"]}
+ALIAS_INPUTS = {"sum x": "lib.Sum", "neg y": "lib.Neg"}
+# the same with a plain alias (a single reference) in the imported grammar
+ALIAS1_FILES = {"main": "import lib\nModel: s=Sum;\nSum: Expression;\n", "lib": "Expression: Sum;\nSum: 'sum' name=ID;\n"}
+ALIAS1_INH = {"main.Sum": ["lib.Expression"], "lib.Expression": ["lib.Sum"]}
+ALIAS1_INPUTS = {"sum x": "lib.Sum"}
+IMP_SCENARIOS = {"same-name": None, "alias": (ALIAS_FILES, ALIAS_INH, ALIAS_INPUTS), "single-alias": (ALIAS1_FILES, ALIAS1_INH, ALIAS1_INPUTS)}
+
+
 def work_imports(arg):
+    u = Unit()
+    for name in ([arg] if arg else IMP_SCENARIOS):
+        sc = IMP_SCENARIOS[name] or (IMP_FILES, IMP_INH, IMP_INPUTS)
+        _work_imports(u, name, *sc)
+    return u
+
+
+def _work_imports(u, scenario, IMP_FILES, IMP_INH, IMP_INPUTS):
     import os
 
     from mc import core
     from textx import metamodel_from_file, textx_isinstance
 
-    u = Unit()
-    d = os.path.join(core.rundir(), "c03imp-%d" % os.getpid())
+    d = os.path.join(core.rundir(), "c03imp-%d-%s" % (os.getpid(), scenario))
     os.makedirs(d, exist_ok=True)
     for fn, text in IMP_FILES.items():
         with open(os.path.join(d, fn + ".tx"), "w") as f:
@@ -251,8 +269,8 @@ def work_imports(arg):
     try:
         mm = metamodel_from_file(os.path.join(d, "main.tx"))
     except Exception as e:
-        u.case(["imports", "compile"], nontrivial=True)
-        u.fail(["imports", "compile"], {"imports": True}, sig="imports compile", what="%s: %s" % (type(e).__name__, str(e)[:200]))
+        u.case(["imports", scenario, "compile"], nontrivial=True)
+        u.fail(["imports", scenario, "compile"], {"imports": scenario}, sig="imports compile " + scenario, what="grammar files %s: %s: %s" % (IMP_FILES, type(e).__name__, str(e)[:200]))
         return u
 
     def reach(rule, cls, seen=()):
@@ -263,18 +281,17 @@ def work_imports(arg):
     for text, cls in IMP_INPUTS.items():
         m = mm.model_from_str(text)
         got_cls = type(m.s)._tx_fqn
-        u.case(["imports", text], nontrivial=True, sample={"input": text, "class": got_cls})
+        u.case(["imports", scenario, text], nontrivial=True, sample={"scenario": scenario, "input": text, "class": got_cls})
         if got_cls != cls:
-            u.fail(["imports", text], {"imports": True}, sig="imports class", what="input %r yields %s, expected %s" % (text, got_cls, cls))
+            u.fail(["imports", scenario, text], {"imports": scenario}, sig="imports class", what="input %r yields %s, expected %s" % (text, got_cls, cls))
             continue
         for r in rules:
             want = reach(r, cls)
             got = bool(textx_isinstance(m.s, mm[r]))
             u.count("isinstance checks (grammar imports)")
             if want != got:
-                u.fail(["imports", text, r], {"imports": True}, sig="imports isinstance %s" % want,
+                u.fail(["imports", scenario, text, r], {"imports": scenario}, sig="imports isinstance %s" % want,
                        what="grammar files %s | input %r | textx_isinstance(%s object, %s) reference=%s implementation=%s" % (IMP_FILES, text, cls, r, want, got))
-    return u
 
 
 def run(ctx):
@@ -306,7 +323,7 @@ def run(ctx):
 
 def replay(p):
     if p.get("imports"):
-        u = work_imports(None)
+        u = work_imports(p["imports"] if isinstance(p["imports"], str) else None)
         return not u.fails, {"failures": [f["what"] for f in u.fails][:5]}
     g = c01.totuple(p["grammar"])
     u = Unit()
